@@ -263,7 +263,7 @@ func c19CBurstGen(t *rapid.T) c19CBurst {
 
 func TestC19(t *testing.T) {
 	s := newSuite(t, "C19",
-		"a burst lane (requests with response header blocks up to 20000 octets and bodies up to 70000, SETTINGS changing HEADER_TABLE_SIZE / MAX_CONCURRENT_STREAMS / MAX_HEADER_LIST_SIZE, PING and RST_STREAM, all written without waiting, so every loop and the handlers run at once) and the generated workloads of C01 (burst, multiplexed exchanges), C09 (stream errors among live streams), C10 (connection errors with parked handlers and hostile trailing behaviour), C17 (disconnects, mutations, write failures, handlers outliving the connection), C18 (SETTINGS changes in the middle of traffic, both roles), C02 (concurrent RoundTrips, burst), C11 (GOAWAY racing requests) and C12 (faults, Client.Close racing RoundTrip, timeouts), the server-role cases run on 3 connections at the same time so the process-wide pools are shared (client-role cases one at a time: their quiescence test reads process-wide goroutine states), in a binary built with the Go race detector. Oracle: (1) no race report whose access stacks lie in github.com/dgrr/http2 (reports are parsed by the driver; signature = innermost library frame of each access); (2) the pool observer sees no double release, no object handed out while owned, no RequestCtx returned while its handler is inside; (3) each execution's own oracle. Non-trivial = a case its own lane counts as non-trivial (interleaved streams, SETTINGS mid-traffic, Close/RST racing a handler or a write); distinct by case hash.",
+		"a burst lane (requests with response header blocks up to 20000 octets and bodies up to 70000, SETTINGS changing HEADER_TABLE_SIZE / MAX_CONCURRENT_STREAMS / MAX_HEADER_LIST_SIZE, PING and RST_STREAM, all written without waiting, so every loop and the handlers run at once) and the generated workloads of C01 (burst, multiplexed exchanges), C09 (stream errors among live streams), C10 (connection errors with parked handlers and hostile trailing behaviour), C17 (disconnects, mutations, write failures, handlers outliving the connection), C18 (SETTINGS changes in the middle of traffic, both roles), C02 (concurrent RoundTrips, burst), C11 (GOAWAY racing requests) and C12 (faults, Client.Close racing RoundTrip, timeouts), the server-role cases run on 3 connections at the same time so the process-wide pools are shared (client-role cases one at a time: their quiescence test reads process-wide goroutine states), in a binary built with the Go race detector. Oracle: (1) no race report whose access stacks lie in github.com/dgrr/http2 (reports are parsed by the driver; signature = innermost library frame of each access); (2) the pool observer sees no double release, no object handed out while owned, no RequestCtx returned while its handler is inside; (3) each execution's own oracle; (4) errors lane: a Conn made with NewConn over an in-memory pipe is ended by the scripted server (GOAWAY with any last-stream-id/code/debug text, RST_STREAM on stream 0, garbage, invalid SETTINGS or PING, EOF), then frames of every type are acquired, filled and released as other connections would: Conn.LastErr() reads the same before and after, is never handed out by a pool, and never carries the mark the pool observer writes into every frame on release. Non-trivial = a case its own lane counts as non-trivial (interleaved streams, SETTINGS mid-traffic, Close/RST racing a handler or a write); distinct by case hash.",
 		"thread schedules are sampled by repetition and parallel connections, not enumerated")
 	defer s.finish()
 	c19Tracker = pooltrack.Start(false)
@@ -289,6 +289,7 @@ func TestC19(t *testing.T) {
 	runLane(s, Lane[c18CCase]{Name: "c18c", Journal: true, Quick: 20, Thor: 300, Gen: c18CGen, Run: c19Par(1, c18ClientRun)})
 	runLane(s, Lane[c11Case]{Name: "c11", Journal: true, Quick: 20, Thor: 300, Gen: c11Gen, Run: c19Par(1, c11Run)})
 	runLane(s, Lane[c12Case]{Name: "c12", Journal: true, Quick: 30, Thor: 400, Gen: c12Gen, Run: c19Par(1, c12Run)})
+	runLane(s, Lane[c19ErrCase]{Name: "errors", Journal: true, Quick: 60, Thor: 3000, Gen: c19ErrGen, Run: c19Par(1, c19ErrRun)})
 }
 
 var _ = fmt.Sprintf
